@@ -139,6 +139,18 @@ def run_linssa(item, rec):
         again = linear_to_ssa(ssa_to_linear(cssa, n), n)
         ok = ok and [sorted(map(int, s)) for s in again] == [sorted(s) for s in cssa]
         rec.refute(ctx, not ok, "linear<->ssa exact inverse", lambda m: dict(case=dict(kind="linssa", n=n, path=[list(s) for s in cpath]), signature=["C10a", n, str(cpath)]))
+        # ... and into trees: the tree built from the linear path and the tree built from its
+        # SSA form contain every group the path merges (single-tensor steps only renumber)
+        from cotengra.core import ContractionTree
+
+        inputs = tuple(skel.LETTERS[i] + skel.LETTERS[(i + 1) % n] for i in range(n))
+        size = {c: 2 for c in skel.all_labels(inputs)}
+        t_lin = ContractionTree.from_path(inputs, "", size, path=cpath, autocomplete=True, optimize="greedy")
+        t_ssa = ContractionTree.from_path(inputs, "", size, ssa_path=cssa, autocomplete=True, optimize="greedy")
+        groups = [g for g in want[0] if len(g) > 1]
+        ok2 = all(g in t_lin.info for g in groups) and all(g in t_ssa.info for g in groups) and t_lin.is_complete() and t_ssa.is_complete()
+        rec.refute(ctx, not ok2, "from_path(linear) and from_path(ssa) contain the groups the path merges",
+                   lambda m: dict(case=dict(kind="linssa-tree", n=n, path=[list(s) for s in cpath]), signature=["C10a-tree", n, str(cpath)]), reach_probe=False)
         return cpath
 
     out = symx.explore(harness, max_paths=200000, max_enum=16)
@@ -279,6 +291,22 @@ def replay(v):
         if len(want[1]) == 1 and [tuple(s) for s in linear_to_ssa(path)] != [tuple(s) for s in ssa]:
             return True, "inferred N gives a different ssa path"
         return False, "round trip is exact"
+    if case["kind"] == "linssa-tree":
+        n = case["n"]
+        path = [tuple(s) for s in case["path"]]
+        inputs = tuple(skel.LETTERS[i] + skel.LETTERS[(i + 1) % n] for i in range(n))
+        size = {c: 2 for c in skel.all_labels(inputs)}
+        want = interp_linear(path, n)
+        groups = [g for g in want[0] if len(g) > 1]
+        t_lin = ContractionTree.from_path(inputs, "", size, path=path, autocomplete=True, optimize="greedy")
+        t_ssa = ContractionTree.from_path(inputs, "", size, ssa_path=linear_to_ssa(path, n), autocomplete=True, optimize="greedy")
+        miss = [sorted(g) for g in groups if g not in t_lin.info]
+        if miss:
+            return True, f"from_path(path={path}) over {n} tensors does not contain the groups {miss} that the path merges"
+        miss = [sorted(g) for g in groups if g not in t_ssa.info]
+        if miss:
+            return True, f"from_path(ssa_path=...) of the same path does not contain {miss}"
+        return False, "trees contain every merged group"
     if case["kind"] == "treepath":
         n = case["n"]
         inputs = tuple(skel.LETTERS[i] + skel.LETTERS[(i + 1) % n] for i in range(n))
